@@ -1,12 +1,12 @@
 package handler
 
 import (
-	"bytes"
 	"errors"
 	"fmt"
 	"io"
 	"io/fs"
 	"log/slog"
+	"math"
 	"os"
 	"path/filepath"
 
@@ -217,22 +217,36 @@ func (h *Handler) HandleReadFile(ctx *Context, limit uint32, offset uint64, wr s
 		return fmt.Errorf("no file opened")
 	}
 
+	// Amount of data must be sent before the data, so calculate it from file size instead of reading
+	// everything to memory (limit is up to 4GiB and controlled by client).
+	fi, err := ctx.State.ROFile.Stat()
+	if err != nil {
+		return fmt.Errorf("stat failed: %w", err)
+	}
+
+	var toRead int64
+	if offset < uint64(fi.Size()) {
+		toRead = min(int64(limit), fi.Size()-int64(offset), math.MaxInt32)
+	}
+
+	log.DebugContext(ctx, "Read file", slog.Int64("read", toRead))
+
+	if toRead == 0 {
+		wr.WriteHeader(0)
+		return nil
+	}
+
 	if _, err := ctx.State.ROFile.Seek(int64(offset), io.SeekStart); err != nil {
 		return fmt.Errorf("seek failed: %w", err)
 	}
 
-	var buf bytes.Buffer
+	wr.WriteHeader(int32(toRead))
 
-	n, err := buf.ReadFrom(io.LimitReader(ctx.State.ROFile, int64(limit)))
-	if err != nil {
+	if _, err := h.Copier.CopyN(wr, ctx.State.ROFile, toRead); err != nil {
 		return fmt.Errorf("read failed: %w", err)
 	}
 
-	log.DebugContext(ctx, "Read file", slog.Int64("read", n))
-
-	wr.WriteHeader(int32(n))
-	_, err = buf.WriteTo(wr)
-	return err
+	return nil
 }
 
 func (h *Handler) HandleReadFileCritical(ctx *Context, limit uint32, offset uint64, w io.Writer) error {
